@@ -136,7 +136,7 @@ def symbolic_sig(rnd: random.Random, shape, p_sym=0.6, tag=""):
     for i, s in enumerate(shape):
         c = rnd.random()
         if c < p_sym / 2:
-            sig.append(names[i % 4] + str(i) + tag)
+            sig.append(names[i % 4] + str(i) + (tag or f"e{s}"))     # untagged: shared between inputs only where the extents agree
         elif c < p_sym:
             sig.append(None)
         else:
